@@ -10,7 +10,7 @@ BUDGET = {'quick': 15000, 'thorough': 150000}
 RULE = ('Model-based histories: Hypothesis draws op-lists (<=25 ops: append, extend, +=, insert, '
         'setitem, delitem int/slice, pop, getitem int/slice/list/ndarray, by_label, set_order) over a '
         'pool of 8 compatible frames (varying tchans/t_start, two value-equal twins, one of opposite orientation with equal '
-        'fmin), 7 incompatible frames (df/dt/fchans/fmin, three of them off by a single ulp) and 4 non-frames; a second cadence may be constructed FROM the cadence and must stay independent; every op is applied to the '
+        'fmin), 7 incompatible frames (df/dt/fchans/fmin, three of them off by a single ulp) and 6 non-frames (two frame-like: a cadence and a look-alike object); order strings mix upper and lower case; a third of the cadences are constructed with t_overwrite; a second cadence may be constructed FROM the cadence and must stay independent; every op is applied to the '
         'cadence and to a plain Python list model in lock-step and identity/order/labels/aggregates are '
         'compared after every op. Non-trivial: >=3 mutating ops including a rejected addition or a '
         'mid-list insertion; distinct by hash of the history.')
@@ -19,9 +19,9 @@ ASSUMPTIONS = ['tuples are not generated as selectors (numpy reads them as multi
                'slice assignment is not generated (property speaks of item assignment)']
 REQUIRED_CLASSES = ['ordered', 'plain', 'op=insert', 'op=setitem', 'op=delitem', 'op=pop', 'op=getitem_list',
                     'op=getitem_slice', 'op=extend', 'op=by_label', 'rejected_nonframe', 'rejected_incompatible',
-                    'mid_insert', 'insert_out_of_range', 'op=clone', 'op=swap', 'twin_frames_both_members']
+                    'mid_insert', 'insert_out_of_range', 'op=clone', 'op=swap', 'twin_frames_both_members', 'constructed_with_t_overwrite']
 
-N_COMPAT, N_INCOMPAT, N_NON = 8, 7, 4
+N_COMPAT, N_INCOMPAT, N_NON = 8, 7, 6
 POOL = N_COMPAT + N_INCOMPAT + N_NON
 
 idx = st.one_of(st.integers(-4, 4), st.integers(-9, 9))
@@ -46,17 +46,21 @@ op_strategy = st.one_of(
                            'c': st.sampled_from([None, 1, 2, -1])}),
     st.fixed_dictionaries({'op': st.just('getitem_list'), 'kind': st.sampled_from(['list', 'ndarray']),
                            'ii': st.lists(idx, min_size=1, max_size=5)}),
-    st.fixed_dictionaries({'op': st.just('by_label'), 'label': st.sampled_from(list('ABCDX'))}),
+    st.fixed_dictionaries({'op': st.just('by_label'), 'label': st.sampled_from(list('ABCDXab'))}),
     st.fixed_dictionaries({'op': st.sampled_from(['clone', 'swap'])}),
     st.fixed_dictionaries({'op': st.just('set_order'),
-                           'order': st.text(alphabet='ABCD', min_size=1, max_size=12)}),
+                           'order': st.one_of(st.text(alphabet='ABCD', min_size=1, max_size=12),
+                                              st.text(alphabet='ABab', min_size=1, max_size=12))}),
 )
 
 
 def strategy(tier):
     return st.fixed_dictionaries({
         'ordered': st.booleans(),
-        'order': st.one_of(st.just('ABACAD'), st.text(alphabet='ABCD', min_size=0, max_size=9)),
+        # labels are case-sensitive single characters
+        'order': st.one_of(st.just('ABACAD'), st.text(alphabet='ABCD', min_size=0, max_size=9), st.text(alphabet='ABab', min_size=0, max_size=9)),
+        # constructed with t_overwrite=True and this slew time (start times of the initial frames are rewritten once)
+        'overwrite': st.one_of(st.none(), st.none(), st.sampled_from([0.0, 30.0, 7.25])),
         'init': st.one_of(st.lists(st.integers(0, N_COMPAT - 1), min_size=0, max_size=6),
                           st.lists(pool_ref, min_size=0, max_size=4)),
         'ops': st.lists(op_strategy, min_size=3, max_size=25),
@@ -82,7 +86,13 @@ def build_pool(stg):
     pool.append(stg.Frame(fchans=4, tchans=2, df=float(np.nextafter(2.0, 3.0)), dt=1.5, fch1=1e9, t_start=0.0))
     pool.append(stg.Frame(fchans=4, tchans=2, df=2.0, dt=float(np.nextafter(1.5, 2.0)), fch1=1e9, t_start=0.0))
     pool.append(stg.Frame(fchans=4, tchans=2, df=2.0, dt=1.5, fch1=float(np.nextafter(float(desc.fmin), 2e9)), ascending=True, t_start=0.0))
-    pool.extend([None, 3, 'frame', np.zeros((2, 4))])
+    # non-frames, two of them frame-like: a cadence (has df, dt, fchans, fmin ...) and a look-alike object
+    import types
+    inner = stg.Frame(tchans=2, ascending=False, t_start=9000.0, **base)
+    look = types.SimpleNamespace(df=inner.df, dt=inner.dt, fchans=inner.fchans, fmin=inner.fmin, fmax=inner.fmax, fmid=inner.fmid,
+                                 fch1=inner.fch1, ascending=False, tchans=2, t_start=9000.0, t_stop=9003.0, metadata={}, data=inner.data,
+                                 add_metadata=lambda d: None)
+    pool.extend([None, 3, 'frame', np.zeros((2, 4)), stg.Cadence([inner]), look])
     assert len(pool) == POOL
     return pool
 
@@ -214,9 +224,17 @@ def run_case(case, ctx):
             sim_ok = False
             break
     if ordered:
-        raised, cad = attempt('construct', lambda: stg.OrderedCadence(frame_list=init, order=case['order']), sim_ok)
+        if case.get('overwrite') is not None:
+            obs.cls('constructed_with_t_overwrite')
+            raised, cad = attempt('construct', lambda: stg.OrderedCadence(frame_list=init, order=case['order'], t_slew=case['overwrite'], t_overwrite=True), sim_ok)
+        else:
+            raised, cad = attempt('construct', lambda: stg.OrderedCadence(frame_list=init, order=case['order']), sim_ok)
     else:
-        raised, cad = attempt('construct', lambda: stg.Cadence(frame_list=init), sim_ok)
+        if case.get('overwrite') is not None:
+            obs.cls('constructed_with_t_overwrite')
+            raised, cad = attempt('construct', lambda: stg.Cadence(frame_list=init, t_slew=case['overwrite'], t_overwrite=True), sim_ok)
+        else:
+            raised, cad = attempt('construct', lambda: stg.Cadence(frame_list=init), sim_ok)
     if raised or not sim_ok:
         if ordered and sim_ok is False and not raised:
             pass
